@@ -22,10 +22,10 @@ P = {
          "Bound: depth after seeds. The crash part shares C02's crash model.", "5 C04"),
  "C05": ("SEQ", "bounded-exhaustive enumeration of op sequences over the full call-shape alphabet vs. a reference model, all range-bound shapes",
          "Every sequence over A_full (every call shape incl. rejected ones, missing queues, empty batches/payloads, retry/past/gap/huge positions, 5 truncate positions) is executed; every return value and, once per prefix, every accessor for all Included/Excluded/Unbounded bound pairs is compared byte for byte with the model. Ring-buffer wrap reads are measured.",
-         "Trusts the reference model. Payload sizes and positions from the menu.", "5 C05"),
+         "Trusts the reference model. Payload sizes, positions, queue names (1 byte, longer than a block, empty, multi-byte, NUL/slash/newline) from the menu; long-history seeds (aged log, 130-record queue, wrapped ring buffer).", "5 C05"),
  "C06": ("SEQ", "bounded-exhaustive op sequences with frame-event attribution vs. real directory listing",
          "After every truncate/delete_queue/open of every explored history (three policies) the directory listing is compared with the harness's own attribution of retained records to files (from frame events, independent of the implementation's reference counts); the same comparison is made after recovery from every crash point of the last op of every history of a crash profile (open after a crash).",
-         "One genuine defect is recorded as a known finding (D4) with an exact predicate; everything else fails the check.", "5 C06, 6 D4"),
+         "Two genuine defects are recorded as known findings (D4, D9), each with an exact predicate computed from the harness's own frame events; every other excess file fails the check.", "5 C06, 6 D4 D9"),
  "C07": ("FRAME", "exhaustive grid (start offset x entry length x follower lengths) over the real record writer/reader on in-memory blocks, plus through-files sequences",
          "In the 64-byte-block geometry the whole cube of start offsets, entry lengths up to several blocks and followers is enumerated and round-tripped through the real RecordWriter/RecordReader and cross-checked against an independent frame encoder; boundary grid in the real geometry; through-file sequences at every file_end-k.",
          "Geometry reduction: same code, two constants changed; boundary grid in the real geometry.", "4.5, 5 C07"),
